@@ -8,6 +8,7 @@ import (
 	"errors"
 	"fmt"
 	"io"
+	"sort"
 	"strconv"
 
 	"github.com/luthersystems/elps/lisp"
@@ -370,8 +371,16 @@ func (s *Serializer) loadInterfaceOpts(x interface{}, opts LoadOpts) *lisp.LVal 
 			return lisp.Errorf("allocation size %d exceeds maximum (%d)", len(x), maxAlloc)
 		}
 		m := SortedMap(x)
-		for k, v := range m {
-			lval := s.loadInterfaceOpts(v, opts)
+		// Convert the members in key order.  Ranging over the map would make
+		// the error reported for a document with several bad members (two
+		// integers out of range, say) depend on Go's map iteration order.
+		keys := make([]string, 0, len(m))
+		for k := range m {
+			keys = append(keys, k)
+		}
+		sort.Strings(keys)
+		for _, k := range keys {
+			lval := s.loadInterfaceOpts(m[k], opts)
 			if lval.Type == lisp.LError {
 				return lval
 			}
